@@ -72,11 +72,16 @@ theorem asn1_depth_bounded (f : Nat) (data : Bytes) (rs : List Asn1.Raw) (h : As
     2 * Lemmas.Robust.depthL rs ≤ data.length := Lemmas.Robust.parseRaw_depth f data rs h
 
 /-- RPM pre-check: a header structure that the walk accepts has its whole index and store inside the file, and its
-    entries TOGETHER announce at most as many items as the store has bytes — so what go-rpm allocates for it
-    (`make([]IndexEntry, n)` and one `make([]T, count)` per entry) is linear in the file size -/
+    entries TOGETHER announce at most as many items as the store has bytes AND their values together occupy at most
+    the store (item size times count, or the NUL-terminated strings at the offset) — so what go-rpm allocates and
+    copies for it (`make([]IndexEntry, n)`, one `make([]T, count)` per entry, one copy per string) is linear in the
+    file size -/
 theorem rpm_header_bounded (data : Bytes) (off off' : Nat) (h : RpmGuard.header data off = .next off') :
     off + 16 + 16 * RpmGuard.be32 data (off + 8) + RpmGuard.be32 data (off + 12) ≤ data.length ∧
-    (RpmGuard.counts data (off + 16) (RpmGuard.be32 data (off + 8))).sum ≤ RpmGuard.be32 data (off + 12) :=
+    (RpmGuard.counts data (off + 16) (RpmGuard.be32 data (off + 8))).sum ≤ RpmGuard.be32 data (off + 12) ∧
+    Lemmas.Robust.extentFold ((data.drop (off + 16 + 16 * RpmGuard.be32 data (off + 8))).take (RpmGuard.be32 data (off + 12)))
+      (RpmGuard.be32 data (off + 12)) 0 (RpmGuard.entries data (off + 16) (RpmGuard.be32 data (off + 8)))
+      ≤ RpmGuard.be32 data (off + 12) :=
   Lemmas.Robust.rpm_header_next data off off' h
 
 /-- a refused header is never handed to the library: `plausible` is false as soon as either header is refused -/
@@ -88,7 +93,11 @@ theorem rpm_refused (data : Bytes) (h : RpmGuard.plausible data = true) :
   · intro off ho hr; rw [ho] at h; simp only [hr] at h; exact absurd h (by simp)
 
 /-- WITNESS (finding D44): entries that each stay within the store but overlap are refused by the running sum -/
-theorem rpm_overlap_witness : RpmGuard.sumsWithin 8 0 [8, 8] = false ∧ RpmGuard.sumsWithin 8 0 [4, 4] = true := by decide
+theorem rpm_overlap_witness : RpmGuard.sumsWithin 8 0 [8, 8] = false ∧ RpmGuard.sumsWithin 8 0 [4, 4] = true ∧
+    -- (finding D51) two STRING entries, each of count 1, both at offset 0 of the 8-byte store "abcdefg\0": refused;
+    -- at offsets 0 and 4 of "abc\0def\0": accepted
+    RpmGuard.within [97, 98, 99, 100, 101, 102, 103, 0] 8 0 0 [(6, 0, 1), (6, 0, 1)] = false ∧
+    RpmGuard.within [97, 98, 99, 0, 100, 101, 102, 0] 8 0 0 [(6, 0, 1), (6, 4, 1)] = true := by decide
 
 /-- the regenerated fact: a field cut off by the end of the data ends the keystore walk -/
 theorem jks_stops_on_truncation : Gen.jksStopsOnTruncation = true := by decide
